@@ -37,7 +37,9 @@ CODES[core.RAISED] = ("oracle", "constructing or querying a satisfaction measure
 
 RULE = ("elections with 0..7 projects (costs from tie-rich pools: zeros, equal costs, halves/thirds/sevenths, a project "
         "dearer than the budget), budgets on boundaries, 1..5 ballots of one of the four ballot types (empty, full, "
-        "repeated ballots, zero and fractional scores), as Profile or MultiProfile; every shipped measure the code accepts for "
+        "repeated ballots, zero and fractional scores), as Profile or MultiProfile (half of the multiprofiles assembled by "
+        "the caller from DIRECTLY constructed frozen ballots: approval from list/tuple in arbitrary order, set, other "
+        "ballot; cardinal/cumulative from dicts in arbitrary insertion order; ordinal from list/tuple/ballot); every shipped measure the code accepts for "
         "the ballot type (Effort_Sat on all four types) is "
         "built for every ballot and queried with sat_project for every project and sat for every subset when <=5 "
         "projects (16 sampled + empty + full above), then again re-ordered and handed over as another container type or as "
@@ -309,6 +311,7 @@ def gen_history(rng, i, btype):
         rng.shuffle(W2)
         case["sets2"].append([W2, rng.choice(FORMS)])
     case["sets_first"] = bool(rng.randrange(2))
+    case["fd"] = rng.randrange(1, 10 ** 6) if multi and rng.randrange(2) else None
     return case
 
 
@@ -357,9 +360,12 @@ def gen(rng, i, tier):
         W2 = list(W)
         rng.shuffle(W2)
         sets2.append([W2, rng.choice(FORMS)])
-    return {"kind": kind, "btype": btype, "costs": costs, "budget": pb.qs(b), "order": order,
+    case = {"kind": kind, "btype": btype, "costs": costs, "budget": pb.qs(b), "order": order,
             "ballots": ballots, "multi": bool(rng.randrange(2)), "sets": sets, "sets2": sets2,
             "sets_first": bool(rng.randrange(2)), "solver": kind == "solver"}
+    # multiprofile assembled by the caller from directly constructed frozen ballots (seed of their forms/orders)
+    case["fd"] = rng.randrange(1, 10 ** 6) if case["multi"] and rng.randrange(2) else None
+    return case
 
 
 # ----------------------------------------------------------------------------------------------
@@ -394,6 +400,54 @@ def _make_ballot(btype, projs, bl, frozen):
     return b.frozen() if frozen else b
 
 
+def _make_frozen_direct(btype, projs, bl, rnd):
+    """a frozen ballot constructed DIRECTLY by the caller (not through frozen()/as_multiprofile()): approval
+    ballots from a list/tuple in arbitrary order, a set, another (frozen) ballot; cardinal/cumulative ballots
+    from a dict in arbitrary insertion order; ordinal ballots from a list/tuple/another ballot"""
+    import pabutools.election as E
+
+    if btype == "approval":
+        mem = [projs[j] for j in bl]
+        rnd.shuffle(mem)
+        form = rnd.choice(["list", "list", "tuple", "tuple", "set", "frozenset", "frozen", "ballot"])
+        src = {"list": list, "tuple": tuple, "set": set, "frozenset": frozenset,
+               "frozen": E.FrozenApprovalBallot, "ballot": E.ApprovalBallot}[form](mem)
+        return E.FrozenApprovalBallot(src)
+    if btype == "ordinal":
+        mem = [projs[j] for j in bl]
+        form = rnd.choice(["list", "tuple", "frozen", "ballot"])
+        src = {"list": list, "tuple": tuple, "frozen": E.FrozenOrdinalBallot, "ballot": E.OrdinalBallot}[form](mem)
+        return E.FrozenOrdinalBallot(src)
+    items = [(projs[j], pb.num(v)) for j, v in bl]
+    rnd.shuffle(items)
+    frozen_cls, ballot_cls = ((E.FrozenCardinalBallot, E.CardinalBallot) if btype == "cardinal"
+                              else (E.FrozenCumulativeBallot, E.CumulativeBallot))
+    form = rnd.choice(["dict", "dict", "frozen", "ballot"])
+    src = {"dict": dict, "frozen": frozen_cls, "ballot": ballot_cls}[form](dict(items))
+    return frozen_cls(src)
+
+
+def _fd_rng(case, k):
+    import random
+
+    return random.Random(int(case["fd"]) * 1009 + k)
+
+
+def _make_profile(case, inst, projs, tag=0):
+    """the profile of the case; with case["fd"] a multiprofile assembled by the caller from directly
+    constructed frozen ballots"""
+    if not (case.get("fd") and case["multi"]):
+        return pb.make_profile(case["btype"], inst, projs, _pb_ballots(case), case["multi"])
+    import pabutools.election as E
+
+    cls = {"approval": E.ApprovalMultiProfile, "cardinal": E.CardinalMultiProfile,
+           "cumulative": E.CumulativeMultiProfile, "ordinal": E.OrdinalMultiProfile}[case["btype"]]
+    prof = cls(instance=inst)
+    for k, bl in enumerate(case["ballots"]):
+        prof.append(_make_frozen_direct(case["btype"], projs, bl, _fd_rng(case, tag + k)))
+    return prof
+
+
 def _query_all(inst, prof, projs, case, via_satprofile=False):
     """build a fresh measure object for every ballot of the profile and every measure, and query it"""
     import pabutools.election.satisfaction as S
@@ -414,7 +468,10 @@ def _query_all(inst, prof, projs, case, via_satprofile=False):
             sv = [core.qj(s.sat([projs[j] for j in W])) for W in case["sets"]]
         sv2 = [core.qj(s.sat(_form(ct, (projs[j] for j in W2)))) for W2, ct in case["sets2"]]
         pv2 = [core.qj(s.sat_project(p)) for p in reversed(projs)][::-1]
-        res.append({"mid": mid, "ballot": content, "pv": pv, "pv2": pv2, "sv": sv, "sv2": sv2})
+        rec = {"mid": mid, "ballot": content, "pv": pv, "pv2": pv2, "sv": sv, "sv2": sv2}
+        if case["btype"] == "approval":
+            rec["iteration_order"] = pb.ranks(s.ballot)     # for the replay only: the order the object iterates in
+        res.append(rec)
     return res
 
 
@@ -426,7 +483,10 @@ def _apply_ops_live(case, inst, prof, projs):
     data = [list(b) for b in case["ballots"]]
     for op in case["ops"]:
         if op[0] == "append":
-            prof.append(_make_ballot(bt, projs, op[1], multi))
+            if multi and case.get("fd"):
+                prof.append(_make_frozen_direct(bt, projs, op[1], _fd_rng(case, 100 + len(data))))
+            else:
+                prof.append(_make_ballot(bt, projs, op[1], multi))
             data.append(list(op[1]))
         elif op[0] == "remove":
             if multi:
@@ -472,16 +532,16 @@ def impl(case):
             c0 = dict(case)
             c0["costs"], c0["ballots"] = case["pre"]["costs"], case["pre"]["ballots"]
             inst0, projs0 = pb.make_instance(c0["costs"], c0["budget"], c0["order"])
-            prof0 = pb.make_profile(c0["btype"], inst0, projs0, _pb_ballots(c0), c0["multi"])
+            prof0 = _make_profile(c0, inst0, projs0, tag=500)
             _query_all(inst0, prof0, projs0, c0, case["via_satprofile"])
         inst, projs = pb.make_instance(case["costs"], case["budget"], case["order"])
-        prof = pb.make_profile(case["btype"], inst, projs, _pb_ballots(case), case["multi"])
+        prof = _make_profile(case, inst, projs)
         _query_all(inst, prof, projs, case, case["via_satprofile"])
         prof = _apply_ops_live(case, inst, prof, projs)
         out["obs"] = _query_all(inst, prof, projs, case, case["via_satprofile"])
     else:
         inst, projs = pb.make_instance(case["costs"], case["budget"], case["order"])
-        prof = pb.make_profile(case["btype"], inst, projs, _pb_ballots(case), case["multi"])
+        prof = _make_profile(case, inst, projs)
         out["obs"] = _query_all(inst, prof, projs, case)
     if case["solver"]:
         st = pb.solver_state()
@@ -642,7 +702,7 @@ def nontrivial(case, o):
 
 def stats(cases, obs):
     d = {"pure": 0, "solver": 0, "transc": 0, "history": 0, "history_ops": {}, "history_with_earlier_election": 0,
-         "history_profile_changed": 0, "history_via_as_sat_profile": 0, "btype": {}, "multiprofile": 0, "fractional_costs": 0,
+         "history_profile_changed": 0, "history_via_as_sat_profile": 0, "btype": {}, "multiprofile": 0, "multiprofile_of_directly_built_frozen_ballots": 0, "fractional_costs": 0,
          "has_zero_cost": 0, "equal_costs": 0, "project_dearer_than_budget": 0, "nproj_hist": {},
          "nballots_hist": {}, "with_repeated_ballot": 0, "with_empty_ballot": 0, "with_full_ballot": 0,
          "fractional_scores": 0, "zero_score_in_ballot": 0, "negative_score": 0,
@@ -661,6 +721,7 @@ def stats(cases, obs):
             c = final_view(c)
         d["btype"][c["btype"]] = d["btype"].get(c["btype"], 0) + 1
         d["multiprofile"] += c["multi"]
+        d["multiprofile_of_directly_built_frozen_ballots"] += bool(c.get("fd") and c["multi"])
         cs = [pb.F(x) for x in c["costs"]]
         n = len(cs)
         d["fractional_costs"] += any(x.denominator != 1 for x in cs)
@@ -746,6 +807,10 @@ def _drop_project(case, j):
 def shrink(case):
     n = len(case["costs"])
     hist = case["kind"] == "history"
+    if case.get("fd"):
+        c = dict(case)
+        c["fd"] = None
+        yield c
     if hist:
         for j in range(len(case["ops"])):
             c = dict(case)
